@@ -231,6 +231,8 @@ LONG_SIZES = [999, 1000, 1001, 1999, 2000, 2001, 2500]
 
 
 def draw_size(d, long_ok=True):
+    if long_ok and d.cfg.get('huge_str_pct') and d.pct(d.cfg['huge_str_pct']):
+        return d.pick([65535, 65536, 65537, 70001])
     if long_ok and d.pct(d.cfg['long_str_pct']):
         return d.pick(LONG_SIZES)
     if d.pct(75):
@@ -458,20 +460,20 @@ class HypChooser(object):
             return False
         return self.draw(st.integers(0, 99)) < p
 
-    def indefinite(self, where):
+    def indefinite(self, where, T=None, path=''):
         return self._pct(self.w['indef'])
 
-    def len_form(self, n):
+    def len_form(self, n, path=''):
         if self._pct(self.w['overlong']):
             return self.draw(st.integers(0, 3)), True
         return 0, False
 
-    def true_octet(self):
+    def true_octet(self, path=''):
         if self._pct(self.w['odd_true']):
             return self.draw(st.sampled_from([1, 2, 0x7f, 0x80, 0xfe, 0xff]))
         return 0xff
 
-    def segments(self, nbytes, is_bits, depth=0):
+    def segments(self, nbytes, is_bits, path='', depth=0):
         if not self._pct(self.w['segment'] if depth == 0 else self.w['nested']):
             return None
         out = []
@@ -485,18 +487,18 @@ class HypChooser(object):
                 size = left
             else:
                 size = self.draw(st.integers(1, left)) if not self._pct(self.w['empty_seg']) else 0
-            sub = self.segments(size, is_bits, depth + 1) if depth < 2 and size else None
+            sub = self.segments(size, is_bits, path, depth + 1) if depth < 2 and size else None
             out.append((size, sub))
             left -= size
         return out
 
-    def emit_default(self):
+    def emit_default(self, path=''):
         return self._pct(self.w['default'])
 
-    def real_shift(self):
+    def real_shift(self, path=''):
         return self.draw(st.integers(1, 9)) if self._pct(self.w['shift']) else 0
 
-    def permute(self, n, what):
+    def permute(self, n, what, path=''):
         if n < 2 or not self._pct(self.w['permute']):
             return None
         return self.draw(st.permutations(list(range(n))))
